@@ -53,6 +53,11 @@ def make_storage(sim, kind, opts=None):
     if kind == 'mapping':
         from ZODB.MappingStorage import MappingStorage
         return MappingStorage()
+    if kind.startswith('hex:'):
+        # a record-transforming wrapper (IStorageWrapper) around a
+        # conflict-resolving storage: ZODB's own reference wrapper
+        from ZODB.tests.hexstorage import HexStorage
+        return HexStorage(make_storage(sim, kind[4:], opts))
     if kind.startswith('demo'):
         from ZODB.DemoStorage import DemoStorage
         from ZODB.FileStorage import FileStorage
